@@ -48,7 +48,16 @@ RULE = (
     "at sampled offsets, through engines and front ends.  Distinct = hash of the case (Hypothesis parts) or distinct by "
     "construction (enumerations).  Non-trivial: engine / bit-level front-end cases whose length is >= one table feed and "
     "not a multiple of the feed width (partial-feed fallback after >= 1 table step) with non-zero contents; octet front "
-    "ends: >= 2 octets, non-zero; every error pattern; histories with >= 2 distinct messages."
+    "ends: >= 2 octets, non-zero; every error pattern; histories with >= 2 distinct messages.  Interleaved histories (from "
+    "freshly re-imported modules, on the front-end singletons and one bitwise / table calculator and register per "
+    "configuration that live as long as the history): judged front-end (calculate / accept / refuse in varying order), engine "
+    "and streamed operations with stimulus in between - for each argument of each entry point every refusable shape (None, "
+    "wrong type, wrong length, out of range, iterables of parts, a generator raising after its first part; serial numbers "
+    "128 / 255 / 1000 / -1; CRC-32 fields of 0 / 3 / 5 octets, negative, 2^32+7; masks None / int / other width), rightly "
+    "negative checks, accepted out-of-domain arguments, abandoned / damaged register rounds - complete over these shapes x "
+    "{same operation again, engine form on the shared singleton, sibling front end} (directed), near twins of a message "
+    "(mask, CRC-32 present / form / one bit, serial number, trailing zeros, first / last bit) through the same singleton with "
+    "every step order, plus seeded random histories of 2..8 operations; every judged operation is judged again at the end."
 )
 ASSUMPTIONS = [
     "bit strings are big-endian bitarrays (library default); little-endian arrays make the two register modes disagree and "
@@ -70,6 +79,11 @@ ASSUMPTIONS = [
     "with the class body's own expression BitCrcCalculator(table_based=True, configuration=CrcN.ETSI_DMR) (the history "
     "sub-check re-imports the modules instead); state carried across calls is therefore observed inside one case "
     "('prev', 'msgs'), never between cases - replay files reproduce",
+    "interleaved: a stimulus (refused call, negative check, out-of-domain argument, abandoned or damaged register round - the "
+    "caller may write the public `register` property; the next round starts with init()) is never judged - only the operations "
+    "of the statement around it, on the same long-lived objects, are; because every oracle rebuilds its calculators, the "
+    "framework's preludes reach only state outside them (helpers, module caches) and the in-history form is this sub-check; a "
+    "worker stops after its first failing history so that every reported history is self-contained",
 ]
 
 CFGS = ["crc7", "crc8", "crc9", "crc16", "crc32"]
@@ -1411,6 +1425,508 @@ def drv_verify_consistency(ctx: Ctx, sub: SubCheck):
     ctx.shards(work, items)
 
 
+# ---------------------------------------------------------------------------------------------- interleaved histories (round 7)
+#
+# The class-level calculators are shared by sibling entry points (CRC9.calculate / calculate_from_parts / check and
+# CRC9.CALC.calculate_checksum / verify_checksum all run on ONE register), and a call can be refused after part of its
+# input was already taken (data field converted, then the CRC-32 field turns out to be 3 octets long; serial number 128).
+# The `history` sub-check feeds valid messages through one entry point only.  Here one history mixes, on objects that live
+# as long as the history (the front-end singletons, one bitwise and one table calculator and one register of each kind per
+# configuration), judged operations - front-end value + check, engine value + verify, a streamed round - with stimulus:
+# every refusable shape of every entry point (wrong types, lengths and ranges for each argument, iterables of parts and a
+# generator that raises after its first part, None / 16-bit / 24-bit masks), rightly negative checks, accepted out-of-domain
+# arguments, abandoned and damaged register rounds.  Nothing is claimed about a stimulus; the judged operations around it
+# must return what the reference says.  Every history starts from freshly re-imported modules.
+
+FAMILY_OF_FE = {"crc8": "crc8", "crc9": "crc9", "crc9_parts": "crc9", "crc16": "crc16", "crc32": "crc32"}
+
+
+class _Hist:
+    """the long-lived objects of one history"""
+
+    def __init__(self):
+        self.calcs, self.regs = {}, {}
+
+    def calc(self, cfg, mode):
+        if mode == "singleton" and cfg not in FE_MODULE:
+            mode = "table"
+        if (cfg, mode) not in self.calcs:
+            self.calcs[(cfg, mode)] = fe_class(cfg).CALC if mode == "singleton" else call(_lib().BitCrcCalculator, lib_cfg(cfg), table_based=(mode == "table"))[1]
+        return self.calcs[(cfg, mode)]
+
+    def reg(self, cfg, mode):
+        mode = "table" if mode != "bitwise" else mode
+        if (cfg, mode) not in self.regs:
+            m = _lib()
+            self.regs[(cfg, mode)] = call(m.TableBasedBitCrcRegister if mode == "table" else m.BitCrcRegister, lib_cfg(cfg))[1]
+        return self.regs[(cfg, mode)]
+
+
+def _raising_parts(first):
+    yield first
+    raise ValueError("next part is not available")
+
+
+BAD_BITS = ["none", "bytes", "str", "list", "list_none", "parts_list", "parts_tuple", "parts_iter", "gen_raising", "gen_empty", "int", "little", "empty", "memoryview", "bytearray", "float"]
+
+
+def _bad_bits(s, how, pos=0):
+    k = pos % (len(s) + 1)
+    return {
+        "none": lambda: None, "bytes": lambda: bitarray(s).tobytes(), "str": lambda: s, "list": lambda: [int(c) for c in s], "list_none": lambda: [int(c) for c in s[:k]] + [None] + [int(c) for c in s[k:]],
+        "parts_list": lambda: [bitarray(s[:k]), bitarray(s[k:])], "parts_tuple": lambda: (bitarray(s[:k]), bitarray(s[k:])), "parts_iter": lambda: iter([bitarray(s[:k]), bitarray(s[k:])]),
+        "gen_raising": lambda: _raising_parts(bitarray(s[:k] or s)), "gen_empty": lambda: iter(()), "int": lambda: len(s), "little": lambda: bitarray(s, endian="little"), "empty": lambda: bitarray(),
+        "memoryview": lambda: memoryview(bitarray(s).tobytes()), "bytearray": lambda: bytearray(bitarray(s).tobytes()), "float": lambda: 1.5,
+    }[how]()
+
+
+BAD_OCTETS = ["none", "str", "int", "bits", "list", "list_oob", "list_none", "tuple", "gen_raising", "float"]  # "int" is a SMALL int: bytearray(n) allocates n octets
+
+
+def _bad_octets(raw, how, pos=0):
+    k = pos % (len(raw) + 1)
+    return {
+        "none": lambda: None, "str": lambda: raw.hex(), "int": lambda: len(raw), "bits": lambda: bitarray("".join(format(x, "08b") for x in raw)), "list": lambda: list(raw),
+        "list_oob": lambda: list(raw[:k]) + [256] + list(raw[k:]), "list_none": lambda: list(raw[:k]) + [None] + list(raw[k:]), "tuple": lambda: tuple(raw),
+        "gen_raising": lambda: _raising_parts(raw[:k] or raw), "float": lambda: 2.5,
+    }[how]()
+
+
+BAD_MASKS = ["none", "int", "str", "other_width", "mask24", "mask7"]
+
+
+def _bad_mask(how, width):
+    mk = masks()
+    return {"none": lambda: None, "int": lambda: 0x0F0, "str": lambda: "CSBK", "other_width": lambda: mk.CSBK if width == 9 else mk.Rate34DataContinuation, "mask24": lambda: mk.VoiceLCHeader, "mask7": lambda: mk.ReverseChannel}[how]()
+
+
+BAD_VALUES = ["too_big", "negative", "none", "str", "float", "wrong", "wrong_top_bit", "bool"]
+
+
+def _bad_value(how, width, right):
+    return {"too_big": lambda: (1 << width) + (right or 1), "negative": lambda: -1 - (right or 0), "none": lambda: None, "str": lambda: "%d" % (right or 0), "float": lambda: (right or 0) + 0.5,
+            "wrong": lambda: (right or 0) ^ 1, "wrong_top_bit": lambda: (right or 0) ^ (1 << (width - 1)), "bool": lambda: True}[how]()
+
+
+PARTS_HOWS = (["sn_128", "sn_255", "sn_1000", "sn_neg", "sn_none", "sn_float", "sn_str", "crc32_len3", "crc32_len5", "crc32_empty", "crc32_str", "crc32_neg", "crc32_huge", "crc32_list", "crc32_float",
+               "crc32_zero_bytes"] + ["data_" + h for h in BAD_OCTETS] + ["mask_" + h for h in BAD_MASKS])
+
+
+def fe_stim_call(fe, msg, how, via="calculate", pos=0):
+    """(function, args, kwargs) of a front-end call that is refused, negative or outside the judged domain, derived from the valid
+    message description ``msg`` of that front end"""
+    cls = fe_class(FAMILY_OF_FE[fe])
+    w = FE_WIDTH[fe]
+    right = fe_expected(fe, msg) if _reference_applies(fe, msg) else 0
+    what, _, h = how.partition("_")
+    if fe in ("crc8", "crc9"):
+        bits = bitarray(msg["bits"])
+        arg = _bad_bits(msg["bits"], h, pos) if what == "data" else bits
+        if fe == "crc8":
+            if via == "check" or what == "value":
+                return cls.check, (arg, _bad_value(h, w, right) if what == "value" else right), {}
+            return cls.calculate, (arg,), {}
+        return cls.calculate, (arg, _bad_mask(h, 9) if what == "mask" else lib_mask(msg["mask"])), {}
+    if fe == "crc9_parts":
+        kw = {"data": bytes.fromhex(msg["data"]), "serial_number": msg["sn"], "mask": lib_mask(msg["mask"]), "crc32": _crc32_arg(dict(msg, rep=None))}
+        if what == "sn":
+            kw["serial_number"] = {"128": 128, "255": 255, "1000": 1000, "neg": -1 - msg["sn"], "none": None, "float": msg["sn"] + 0.5, "str": str(msg["sn"])}[h]
+        elif what == "crc32":
+            kw["crc32"] = {"len3": b"\x01\x02\x03", "len5": b"\x01\x02\x03\x04\x05", "empty": b"", "str": "abcd", "neg": -5, "huge": 2**32 + 7, "list": [1, 2, 3, 4], "float": 1.5, "zero_bytes": b"\x00" * 4}[h]
+        elif what == "data":
+            kw["data"] = _bad_octets(kw["data"], h, pos)
+        elif what == "mask":
+            kw["mask"] = _bad_mask(h, 9)
+        if via == "check" or what == "value":
+            kw["crc9"] = _bad_value(h, w, right) if what == "value" else right
+            return cls.check, (), kw
+        return cls.calculate_from_parts, (), kw
+    raw = bytes.fromhex(msg["data"])
+    arg = _bad_octets(raw, h, pos) if what == "data" else raw
+    if fe == "crc16":
+        mk = _bad_mask(h, 16) if what == "mask" else lib_mask(msg["mask"])
+        if via == "check" or what == "value":
+            return cls.check, (arg, _bad_value(h, w, right) if what == "value" else right, mk), {}
+        return cls.calculate, (arg, mk), {}
+    if via == "check" or what == "value":
+        return cls.check, (arg, _bad_value(h, w, right) if what == "value" else right), {}
+    return cls.calculate, (arg,), {}
+
+
+def fe_stim_hows(fe):
+    if fe == "crc9_parts":
+        return PARTS_HOWS + ["value_" + h for h in BAD_VALUES]
+    if fe == "crc8":
+        return ["data_" + h for h in BAD_BITS] + ["value_" + h for h in BAD_VALUES]
+    if fe == "crc9":
+        return ["data_" + h for h in BAD_BITS] + ["mask_" + h for h in BAD_MASKS]
+    if fe == "crc16":
+        return ["data_" + h for h in BAD_OCTETS] + ["mask_" + h for h in BAD_MASKS] + ["value_" + h for h in BAD_VALUES]
+    return ["data_" + h for h in BAD_OCTETS] + ["value_" + h for h in BAD_VALUES]
+
+
+ENG_HOWS = ["data_" + h for h in BAD_BITS] + ["value_" + h for h in BAD_VALUES]
+REG_HOWS = ["abandoned_round", "update_without_init", "update_none", "update_str", "update_list", "update_parts", "digest_twice", "digest_without_update", "reverse", "reverse_twice", "set_register", "set_register_short", "read_register"]
+
+
+def run_stim(H: "_Hist", op):
+    """one stimulus; whatever it returns or raises is ignored"""
+    t, how, pos = op["t"], op["how"], int(op.get("pos", 0))
+    try:
+        if t == "fe":
+            fn, a, kw = fe_stim_call(op["fe"], op["msg"], how, op.get("via", "calculate"), pos)
+            fn(*a, **kw)
+        elif t == "eng":
+            calc = H.calc(op["cfg"], op["mode"])
+            what, _, h = how.partition("_")
+            w = crc_ref.WIDTH[op["cfg"]]
+            right = crc_ref.rem(op["cfg"], crc_ref.bits_of(op["bits"]))
+            if what == "data":
+                (calc.verify_checksum if op.get("via") == "check" else calc.calculate_checksum)(*((_bad_bits(op["bits"], h, pos), right) if op.get("via") == "check" else (_bad_bits(op["bits"], h, pos),)))
+            else:
+                calc.verify_checksum(bitarray(op["bits"]), _bad_value(h, w, right))
+        elif t == "reg":
+            reg = H.reg(op["cfg"], op["mode"])
+            bits = bitarray(op["bits"])
+            k = pos % (len(bits) + 1)
+            if how == "abandoned_round":
+                reg.init()
+                reg.update(bits)
+            elif how == "update_without_init":
+                reg.update(bits)
+            elif how in ("update_none", "update_str", "update_list", "update_parts"):
+                reg.init()
+                reg.update(bits[:k])
+                reg.update({"update_none": None, "update_str": op["bits"], "update_list": [int(c) for c in op["bits"]], "update_parts": [bits[:k], bits[k:]]}[how])
+            elif how == "digest_twice":
+                reg.init()
+                reg.update(bits)
+                reg.digest()
+                reg.digest()
+            elif how == "digest_without_update":
+                reg.digest()
+            elif how in ("reverse", "reverse_twice"):
+                reg.init()
+                reg.update(bits)
+                reg.reverse()
+                if how == "reverse_twice":
+                    reg.reverse()
+            elif how in ("set_register", "set_register_short"):
+                w = crc_ref.WIDTH[op["cfg"]]
+                reg.register = bitarray("1" * (w if how == "set_register" else max(1, w - 3)))
+            elif how == "read_register":
+                r = reg.register
+                r.invert()  # the caller owns what the property handed out
+        else:
+            raise HarnessError(f"unknown stimulus {t}")
+    except HarnessError:
+        raise
+    except (KeyboardInterrupt, SystemExit, MemoryError):
+        raise
+    except BaseException:
+        pass
+
+
+def _op_stim(a):
+    run_stim(_Hist(), a)
+
+
+PRELUDE_OPS = {"stim": _op_stim}
+
+
+def _rand_front_msg(fe, r):
+    if fe in ("crc8", "crc9"):
+        n = r.choice([r.randrange(0, 401), r.randrange(0, 80), 28, 96])
+        m = {"bits": _rand_bits(r, n) if r.random() < 0.8 else "0" * n}
+        if fe == "crc9":
+            m["mask"] = r.choice(sorted(crc_ref.MASKS9))
+        return m
+    if fe == "crc9_parts":
+        n = r.choice(DATA_SIZES_CRC9 + [r.randrange(0, 25)])
+        c = r.choice([None, None, r.randrange(1, 2**32)])
+        return {"data": bytes(r.getrandbits(8) for _ in range(n)).hex(), "sn": r.randrange(128), "mask": r.choice(sorted(crc_ref.MASKS9)), "crc32": c, "crc32_as": r.choice(["int", "bytes"])}
+    if fe == "crc16":
+        return {"data": bytes(r.getrandbits(8) for _ in range(r.choice([10, 10, r.randrange(0, 65)]))).hex(), "mask": r.choice(sorted(crc_ref.MASKS16))}
+    return {"data": bytes(r.getrandbits(8) for _ in range(2 * r.randrange(0, 33))).hex()}
+
+
+STEP_ORDERS = [["refuse", "accept", "calc"], ["calc", "refuse", "accept"], ["accept", "calc", "refuse"], ["accept"], ["refuse"], ["calc"]]
+FE_TWIN_KINDS = {"crc8": [2, 3, 4, 5], "crc9": [2, 3, 4, 5, "mask"], "crc9_parts": [2, 3, 4, 5, "mask", "crc32_toggle", "crc32_as", "crc32_value", "sn_top"], "crc16": [2, 3, 4, 5, "mask"], "crc32": [2, 3, 4, 5]}
+
+
+def front_twin(fe, msg, kind, r):
+    """a valid message of the same front end that equals ``msg`` in everything but one field (the fields a key that is too wide
+    would leave out: the mask, the optional CRC-32 and its form, the serial number, trailing zeros, the last / first bit)"""
+    if kind in (2, 3, 4, 5):
+        if fe == "crc32" and kind in (2, 3):
+            return dict(msg, data=msg["data"] + "0000" if kind == 2 else msg["data"][:-4])
+        return _related_msg(fe, msg, kind)
+    out = dict(msg)
+    if kind == "mask":
+        pool = sorted(crc_ref.MASKS9 if fe in ("crc9", "crc9_parts") else crc_ref.MASKS16)
+        out["mask"] = pool[(pool.index(msg["mask"]) + 1 + r.randrange(len(pool) - 1)) % len(pool)]
+    elif kind == "crc32_toggle":
+        out["crc32"] = None if msg.get("crc32") is not None else r.randrange(1, 2**32)
+    elif kind == "crc32_as":
+        out["crc32"] = msg["crc32"] if msg.get("crc32") is not None else r.randrange(1, 2**32)
+        out["crc32_as"] = "bytes" if msg.get("crc32_as", "int") == "int" else "int"
+    elif kind == "crc32_value":
+        out["crc32"] = ((msg.get("crc32") or 0) ^ (1 << r.randrange(32))) or 1
+    elif kind == "sn_top":
+        out["sn"] = msg["sn"] ^ 0x40
+    return out
+
+
+def random_stim(r, cfg=None, msg=None, fe=None, bits=None):
+    """a stimulus on the same family (and, when given, derived from the same message / bit string) as a judged operation"""
+    cfg = cfg or r.choice(CFGS)
+    fes = [f for f, fam in FAMILY_OF_FE.items() if fam == cfg]
+    x = r.random()
+    if fes and x < 0.55:
+        f = fe if fe in fes and msg is not None and r.random() < 0.7 else r.choice(fes)
+        m = msg if f == fe and msg is not None else _rand_front_msg(f, r)
+        how = r.choice(fe_stim_hows(f))
+        return {"k": "stim", "t": "fe", "fe": f, "msg": m, "how": how, "via": r.choice(["calculate", "check"]) if f not in ("crc9",) else "calculate", "pos": r.randrange(64)}
+    b = bits if bits is not None and r.random() < 0.7 else _rand_bits(r, r.choice([r.randrange(1, 80), r.randrange(1, 401)]))
+    mode = r.choice(["singleton", "singleton", "bitwise", "table"])
+    if x < 0.8:
+        return {"k": "stim", "t": "eng", "cfg": cfg, "mode": mode, "bits": b, "how": r.choice(ENG_HOWS), "via": r.choice(["calculate", "check"]), "pos": r.randrange(64)}
+    return {"k": "stim", "t": "reg", "cfg": cfg, "mode": r.choice(["bitwise", "table"]), "bits": b, "how": r.choice(REG_HOWS), "pos": r.randrange(64)}
+
+
+def prelude_for(sub, case, rng):
+    """refused / negative / out-of-domain calls of the entry points of the case's own family, on the case's own message where it
+    has one.  (Every oracle of this module rebuilds the calculators it judges, so a prelude reaches only state that lives
+    elsewhere: helpers shared with other modules, module-level caches; the in-history form is the `interleaved` sub-check.)"""
+    cfg = fe = msg = bits = None
+    if isinstance(case, dict):
+        fe = case.get("fe") if case.get("fe") in FAMILY_OF_FE else None
+        t = case.get("target")
+        if isinstance(t, str):
+            fe = t if t in FAMILY_OF_FE else None
+            cfg = t.split(":")[1] if t.startswith("engine:") else None
+        cfg = FAMILY_OF_FE.get(fe) or cfg or (case.get("cfg") if case.get("cfg") in CFGS else None)
+        m = case.get("msg") if isinstance(case.get("msg"), dict) else (case.get("msgs") or [None])[0] if isinstance(case.get("msgs"), list) else None
+        if isinstance(m, dict) and fe is not None and ("bits" in m or "data" in m):
+            msg = {k: v for k, v in m.items() if k != "rep"}
+        bits = case.get("bits") if isinstance(case.get("bits"), str) and case.get("bits") else None
+    out = []
+    for _ in range(3):
+        op = random_stim(rng, cfg, msg, fe, bits)
+        try:
+            if op["t"] == "fe":
+                fe_expected(op["fe"], op["msg"])  # only messages the reference can describe
+        except Exception:
+            continue
+        out.append({"x": "stim", "a": op})
+    return out
+
+
+def oracle_interleaved(case):
+    """case = {ops: [op, ...]}; op = {k: "fe", fe, msg} | {k: "eng", cfg, mode: singleton|bitwise|table, bits} | {k: "stream", cfg, mode:
+    bitwise|table, chunks} | {k: "stim", t: fe|eng|reg, how, ...}.  All operations of a history run on the same long-lived objects
+    (front-end singletons from freshly re-imported modules; one calculator / register per (cfg, mode) created at first use).
+    Judged: fe - the value is the reference's, check() accepts it and refuses a neighbour; eng - calculate_checksum is the
+    polynomial remainder, verify_checksum accepts it and refuses a neighbour; stream - init(); update() per chunk returns the
+    remainder of the bits fed so far; digest() the remainder of all.  At the end every judged fe / eng operation is judged again."""
+    ops = case["ops"]
+    fams = []
+    for op in ops:
+        f = FAMILY_OF_FE.get(op.get("fe")) or op.get("cfg")
+        if f not in fams:
+            fams.append(f)
+    importlib.reload(importlib.import_module("okdmr.dmrlib.etsi.crc.crc"))
+    for f in fams:
+        if f in FE_MODULE:
+            importlib.reload(importlib.import_module(FE_MODULE[f][0]))
+    H = _Hist()
+    first = {}
+
+    def judge(n, op, where):
+        k = op["k"]
+        steps = op.get("do") or ["calc", "accept", "refuse"]  # which calls of the judged operation run, in this order
+        if k == "fe":
+            fe, msg = op["fe"], op["msg"]
+            key = json.dumps([fe, msg], sort_keys=True)
+            if not _reference_applies(fe, msg) and key not in first:
+                steps = ["calc"] + [x for x in steps if x != "calc"]
+            for step in steps:
+                exp = fe_expected(fe, msg) if _reference_applies(fe, msg) else first.get(key)
+                if step == "calc":
+                    got = _fe_call(fe, msg)
+                    exp = first.setdefault(key, got) if exp is None else exp
+                    if got != exp:
+                        raise Fail("result_independent_of_earlier_calls", {"op": n, "crc": hex(got) if _is_int(got) else repr(got)}, {"op": n, "crc": hex(exp)}, f"{fe}:{where}")
+                elif fe != "crc9" and step == "accept":
+                    if _fe_check(fe, msg, exp) is not True:
+                        raise Fail("verify_independent_of_earlier_calls", {"op": n, "result": False}, {"op": n, "result": True}, f"{fe}:{where}")
+                elif fe != "crc9" and step == "refuse":
+                    other = exp ^ (1 << (n % FE_WIDTH[fe]))
+                    if _fe_check(fe, msg, other) is not False:
+                        raise Fail("verify_independent_of_earlier_calls", {"op": n, "value": hex(other), "result": True}, {"op": n, "value": hex(other), "result": False}, f"{fe}:{where}")
+        elif k == "eng":
+            cfg, mode, s = op["cfg"], op["mode"], op["bits"]
+            w = crc_ref.WIDTH[cfg]
+            calc = H.calc(cfg, mode)
+            exp = crc_ref.rem(cfg, crc_ref.bits_of(s))
+            for step in steps:
+                if step == "calc":
+                    got = call(calc.calculate_checksum, bitarray(s))[1]
+                    if not isinstance(got, bitarray) or len(got) != w or ba2int(got) != exp:
+                        raise Fail("result_independent_of_earlier_calls", {"op": n, "crc": got.to01() if isinstance(got, bitarray) else repr(got)}, {"op": n, "crc": format(exp, f"0{w}b")}, f"{cfg}:{mode}:{where}")
+                elif step == "accept":
+                    if call(calc.verify_checksum, bitarray(s), exp)[1] is not True:
+                        raise Fail("verify_independent_of_earlier_calls", {"op": n, "result": False}, {"op": n, "result": True}, f"{cfg}:{mode}:{where}")
+                elif step == "refuse":
+                    other = exp ^ (1 << (n % w))
+                    if call(calc.verify_checksum, bitarray(s), other)[1] is not False:
+                        raise Fail("verify_independent_of_earlier_calls", {"op": n, "value": hex(other), "result": True}, {"op": n, "value": hex(other), "result": False}, f"{cfg}:{mode}:{where}")
+        elif k == "stream":
+            cfg, mode = op["cfg"], op["mode"]
+            w = crc_ref.WIDTH[cfg]
+            reg = H.reg(cfg, mode)
+            call(reg.init)
+            sofar = ""
+            for j, ch in enumerate(op["chunks"]):
+                ret = call(reg.update, bitarray(ch))[1]
+                sofar += ch
+                exp = format(crc_ref.rem(cfg, crc_ref.bits_of(sofar)), f"0{w}b")
+                if not isinstance(ret, bitarray) or ret.to01() != exp:
+                    raise Fail("update_returns_remainder_of_bits_fed_so_far", {"op": n, "chunk": j, "register": ret.to01() if isinstance(ret, bitarray) else repr(ret)}, {"op": n, "chunk": j, "register": exp}, f"{cfg}:{mode}:{where}")
+            exp = format(crc_ref.rem(cfg, crc_ref.bits_of(sofar)), f"0{w}b")
+            dig = call(reg.digest)[1]
+            if not isinstance(dig, bitarray) or dig.to01() != exp:
+                raise Fail("streamed_digest_equals_polynomial_remainder", {"op": n, "digest": dig.to01() if isinstance(dig, bitarray) else repr(dig)}, {"op": n, "digest": exp}, f"{cfg}:{mode}:{where}")
+
+    for n, op in enumerate(ops):
+        if op["k"] == "stim":
+            run_stim(H, op)
+        else:
+            judge(n, op, "in_history")
+    for n, op in enumerate(ops):
+        if op["k"] in ("fe", "eng"):
+            judge(n, op, "at_end_of_history")
+
+
+def _interleaved_directed(rng):
+    det = []
+    for fe in ["crc8", "crc9", "crc9_parts", "crc16", "crc32"]:
+        fam = FAMILY_OF_FE[fe]
+        for how in fe_stim_hows(fe):
+            for via in (("calculate", "check") if fe != "crc9" and not how.startswith("value_") else ("calculate",)):
+                msg = _rand_front_msg(fe, rng)
+                while fe == "crc9_parts" and not any(bytes.fromhex(msg["data"])):
+                    msg = _rand_front_msg(fe, rng)
+                if how.startswith("crc32_") and msg.get("crc32") is None and rng.random() < 0.5:
+                    msg["crc32"] = rng.randrange(1, 2**32)
+                stim = {"k": "stim", "t": "fe", "fe": fe, "msg": msg, "how": how, "via": via, "pos": rng.randrange(64)}
+                jf = {"k": "fe", "fe": fe, "msg": msg}
+                bits = "".join(map(str, fe_message_bits(fe, msg))) or "1"
+                je = {"k": "eng", "cfg": fam, "mode": "singleton", "bits": bits}
+                sib = [f for f, x in FAMILY_OF_FE.items() if x == fam and f != fe]
+                js = {"k": "fe", "fe": sib[0], "msg": _rand_front_msg(sib[0], rng)} if sib else je
+                # X, refused / negative sibling call on X's own values, X again - through each entry point that shares the register
+                det.append({"ops": [jf, stim, jf]})
+                det.append({"ops": [stim, je]})
+                det.append({"ops": [je, stim, js, jf]})
+    for fe in ["crc8", "crc9", "crc9_parts", "crc16", "crc32"]:
+        for kind in FE_TWIN_KINDS[fe]:
+            for _ in range(3):
+                msg = _rand_front_msg(fe, rng)
+                tw = front_twin(fe, msg, kind, rng)
+                # near twins through the same singleton alternately: X, X', X (and the engine form of X' in between)
+                det.append({"ops": [{"k": "fe", "fe": fe, "msg": msg}, {"k": "fe", "fe": fe, "msg": tw}, {"k": "eng", "cfg": FAMILY_OF_FE[fe], "mode": "singleton", "bits": "".join(map(str, fe_message_bits(fe, tw))) or "0"},
+                                    {"k": "fe", "fe": fe, "msg": msg}]})
+                # the same with every single step of a judged operation as the last thing that happened before the twin
+                for last_step in STEP_ORDERS:
+                    det.append({"ops": [{"k": "fe", "fe": fe, "msg": msg, "do": last_step}, {"k": "fe", "fe": fe, "msg": tw, "do": [last_step[-1]] + [x for x in ("calc", "accept", "refuse") if x != last_step[-1]]},
+                                        {"k": "fe", "fe": fe, "msg": msg, "do": ["calc"]}]})
+    for cfg in CFGS:
+        for mode in ("singleton", "bitwise", "table"):
+            for how in ENG_HOWS:
+                bits = _rand_bits(rng, rng.choice([rng.randrange(1, 60), rng.randrange(60, 401)]))
+                stim = {"k": "stim", "t": "eng", "cfg": cfg, "mode": mode, "bits": bits, "how": how, "via": rng.choice(["calculate", "check"]), "pos": rng.randrange(64)}
+                je = {"k": "eng", "cfg": cfg, "mode": mode, "bits": bits, "do": STEP_ORDERS[len(det) % len(STEP_ORDERS)]}
+                ops = [je, stim, je]
+                if mode == "singleton" and cfg in FE_MODULE:
+                    fe = rng.choice([f for f, x in FAMILY_OF_FE.items() if x == cfg])
+                    ops = [je, stim, {"k": "fe", "fe": fe, "msg": _rand_front_msg(fe, rng)}]
+                det.append({"ops": ops})
+        for mode in ("bitwise", "table"):
+            for how in REG_HOWS:
+                bits = _rand_bits(rng, rng.randrange(1, 120))
+                k = rng.randrange(len(bits) + 1)
+                stim = {"k": "stim", "t": "reg", "cfg": cfg, "mode": mode, "bits": bits, "how": how, "pos": rng.randrange(64)}
+                js = {"k": "stream", "cfg": cfg, "mode": mode, "chunks": [bits[:k], bits[k:]]}
+                det.append({"ops": [js, stim, js]})
+    return det
+
+
+def drv_interleaved(ctx: Ctx, sub: SubCheck):
+    rng = ctx.rng("interleaved")
+    det = _interleaved_directed(rng)
+    chunks = [det[i::16] for i in range(16)]
+
+    def cls_of(c):
+        st_ = [o for o in c["ops"] if o["k"] == "stim"]
+        if not st_:
+            return "judged_only"
+        o = st_[0]
+        return f"stimulus_{o['t']}:" + (o.get("fe") or o.get("cfg"))
+
+    def nontriv(c):
+        ks = [o["k"] != "stim" for o in c["ops"]]
+        return (False in ks and True in ks[ks.index(False):]) or len({json.dumps(o, sort_keys=True) for o in c["ops"]}) >= 2
+
+    def random_history(r):
+        cfg = r.choice(CFGS + ["crc9", "crc9"])
+        fes = [f for f, x in FAMILY_OF_FE.items() if x == cfg]
+        ops, last = [], {}
+        for _ in range(r.randrange(2, 9)):
+            x = r.random()
+            c = cfg if r.random() < 0.85 else r.choice(CFGS)
+            if x < 0.5:
+                ops.append(random_stim(r, c, last.get("msg") if c == cfg else None, last.get("fe") if c == cfg else None, last.get("bits") if c == cfg else None))
+            elif x < 0.75 and [f for f, y in FAMILY_OF_FE.items() if y == c]:
+                fe = r.choice([f for f, y in FAMILY_OF_FE.items() if y == c])
+                msg = _rand_front_msg(fe, r)
+                if last.get("fe") == fe and r.random() < 0.6:
+                    msg = last["msg"] if r.random() < 0.4 else front_twin(fe, last["msg"], r.choice(FE_TWIN_KINDS[fe]), r)
+                ops.append({"k": "fe", "fe": fe, "msg": msg, "do": r.choice(STEP_ORDERS + [None, None])})
+                if c == cfg:
+                    last.update(fe=fe, msg=msg, bits="".join(map(str, fe_message_bits(fe, msg))) or "1")
+            elif x < 0.92:
+                bits = last["bits"] if last.get("bits") and r.random() < 0.4 else _rand_bits(r, r.choice([r.randrange(1, 80), r.randrange(1, 401)]))
+                ops.append({"k": "eng", "cfg": c, "mode": r.choice(["singleton", "singleton", "bitwise", "table"]), "bits": bits, "do": r.choice(STEP_ORDERS + [None, None])})
+                if c == cfg:
+                    last["bits"] = bits
+            else:
+                bits = _rand_bits(r, r.randrange(1, 200))
+                cuts = sorted(r.randrange(len(bits) + 1) for _ in range(r.randrange(0, 4)))
+                ops.append({"k": "stream", "cfg": c, "mode": r.choice(["bitwise", "table"]), "chunks": [bits[a:b] for a, b in zip([0] + cuts, cuts + [len(bits)])]})
+        return {"ops": ops}
+
+    n_random = ctx.pick(25, 500)
+
+    def work(item, t: Tally):
+        r = ctx.rng("interleaved-random", item)
+        todo = [(c, None) for c in chunks[item]] + [(random_history(r), True) for _ in range(n_random)]
+        for n, (c, keyed) in enumerate(todo):
+            if not ctx.run_case(sub.name, oracle_interleaved, c, t):
+                # what a failing history left behind in this process may taint the next ones: report this one (it replays in a
+                # fresh interpreter) and stop this worker
+                t.excluded["histories not run after a failing history in the same worker"] += len(todo) - n - 1
+                break
+            t.case(sub.name, key=c if keyed else None, nontrivial=nontriv(c), cls=cls_of(c))
+        if chunks[item]:
+            t.sample(sub.name, chunks[item][0])
+
+    ctx.shards(work, list(range(16)))
+    ctx.tally.extra["interleaved_directed_histories"] = len(det)
+    ctx.tally.notes.append(f"interleaved: {len(det)} directed histories (every refusable / negative / out-of-domain call shape of every front end, of calculate_checksum / verify_checksum on the singleton, a bitwise and a table calculator, and every abandoned / damaged register round, between judged operations on the same long-lived objects and the same message) + 16 x {n_random} seeded random histories of 2..8 operations")
+
+
+
 SUBCHECKS = [
     SubCheck("captured_vectors", oracle_captured, drv_captured, "reference and library agree with CRC values captured from real radios"),
     SubCheck("extreme_outputs", oracle_extreme, drv_extreme, "messages constructed so that the CRC is 0 / all ones / 1 / top bit only / all ones - 1 / top bit clear, for every engine config and front end: value, modes, check incl. wrap-around neighbours"),
@@ -1420,6 +1936,7 @@ SUBCHECKS = [
     SubCheck("verify_consistency", oracle_verify_consistency, drv_verify_consistency, "every container a calculator accepts (incl. little-endian arrays on the table register and the arrays the octet front ends build): verify_checksum accepts exactly ba2int(calculate_checksum(data))"),
     SubCheck("streaming", oracle_streaming, drv_streaming, "register workflow init(); update() x n; digest() with arbitrary split points (empty, 1-bit, zero-feed-leading chunks), both register classes: every intermediate register and the digest == remainder"),
     SubCheck("history", oracle_history, drv_history, "sequences of (related) messages through ONE calculator / front-end singleton from import-time state: each result is that message's own CRC"),
+    SubCheck("interleaved", oracle_interleaved, drv_interleaved, "histories on long-lived singletons / calculators / registers: judged front-end, engine and streamed operations with rightly refused calls (each argument of each entry point: wrong type, length, range; iterables of parts; a generator that raises after its first part), negative checks, out-of-domain arguments and abandoned register rounds in between, through every sibling entry point that shares the register"),
     SubCheck("engine_linearity", oracle_linearity, drv_linearity, "Hypothesis: crc(a^b) == crc(a)^crc(b), both register modes"),
     SubCheck("front_crc8", oracle_front, make_front_driver("crc8", 50, 1200), "CRC8.calculate/check == plain remainder"),
     SubCheck("front_crc9", oracle_front, make_front_driver("crc9", 50, 1200), "CRC9.calculate == inverted remainder ^ mask (3 masks)"),
